@@ -42,18 +42,25 @@ fn parse_json_inputs(
             if let serde_json::Value::Object(obj) = json_value {
                 for (k, v) in obj.iter() {
                     let serializable = SerializableValue::from_json(v);
-                    if let Ok(val) = serializable.to_value(&mut heap.borrow_mut()) {
-                        inputs_map.insert(k.clone(), val);
-                    }
+                    let val = serializable
+                        .to_value(&mut heap.borrow_mut())
+                        .map_err(|e| {
+                            format!(
+                                "[input error] Cannot use the value of \"{}\" from {}: {}",
+                                k, source, e
+                            )
+                        })?;
+                    inputs_map.insert(k.clone(), val);
                 }
             } else {
                 // If not an object, wrap in a record with a unique key
                 let serializable = SerializableValue::from_json(&json_value);
-                if let Ok(val) = serializable.to_value(&mut heap.borrow_mut()) {
-                    let key = format!("value_{}", *unnamed_counter + 1);
-                    *unnamed_counter += 1;
-                    inputs_map.insert(key, val);
-                }
+                let val = serializable
+                    .to_value(&mut heap.borrow_mut())
+                    .map_err(|e| format!("[input error] Cannot use the value from {}: {}", source, e))?;
+                let key = format!("value_{}", *unnamed_counter + 1);
+                *unnamed_counter += 1;
+                inputs_map.insert(key, val);
             }
 
             Ok(inputs_map)
